@@ -88,10 +88,14 @@ HdrWS(h) == IF h = <<>> THEN <<>> ELSE (IF Head(h) = "ws" THEN <<" ", "\n">> ELS
 \* whitespace after the last clause belongs to the body's first text run
 RECURSIVE AfterLastClause(_)
 AfterLastClause(h) == IF h = <<>> THEN <<>> ELSE IF \E i \in 1..Len(h) : h[i] = "imp" THEN AfterLastClause(Tail(h)) ELSE h
+\* "whitespace-only" next to a clause is Go's strings.TrimSpace notion (any Unicode space, here also form feed);
+\* the property fixes the set only for trim markers (space, tab, CR, LF)
+RECURSIVE SkipHdrWS(_, _)
+SkipHdrWS(inp, p) == IF p <= Len(inp) /\ inp[p] \in (WS \cup {"\f"}) THEN SkipHdrWS(inp, p + 1) ELSE p
 RenderedWithHeader ==
   IF ~HasClause(hdr) THEN Rendered(HdrWS(hdr) \o input)
   ELSE LET body == HdrWS(AfterLastClause(hdr)) \o input
-           p0   == SkipWS(body, 1)
+           p0   == SkipHdrWS(body, 1)
            wsOnlyRun == p0 > Len(body) \/ StartsWith(body, p0, LD) \/ StartsWith(body, p0, LC)
        IN Render(body, IF wsOnlyRun THEN p0 ELSE 1, <<>>, 0)
 
